@@ -58,6 +58,12 @@ impl Case {
 }
 
 fn check(c: &Case, lo: &mut Local, st: &mut Stats) -> Result<(), Failure> {
+    check_opt(c, lo, st, true)
+}
+
+/// `finish_first` = false: the suggestions-on context is NOT sent a finish request before the text is typed (the
+/// previous word was ended by a commit, which must be enough).
+fn check_opt(c: &Case, lo: &mut Local, st: &mut Stats, finish_first: bool) -> Result<(), Failure> {
     let text = c.text();
     if text.is_empty() {
         return Ok(());
@@ -83,7 +89,9 @@ fn check(c: &Case, lo: &mut Local, st: &mut Stats) -> Result<(), Failure> {
         ));
     }
     let on = &lo.on[c.optidx % 8];
-    on.finish().map_err(pf)?;
+    if finish_first {
+        on.finish().map_err(pf)?;
+    }
     lo.off.finish().map_err(pf)?;
     // every prefix is a typed text of its own: the single string of the suggestions-off context must be
     // one of the candidates of the suggestions-on context after every key
@@ -220,7 +228,64 @@ fn toggling_case(c: &Case, lo: &mut Toggling, st: &mut Stats) -> Result<(), Fail
     Ok(())
 }
 
+/// A word can also be ended by committing ANY of the candidates shown for it.  For every punctuation-only text of
+/// one or two characters, every emoticon of the table and a few words, under all 8 option sets, EVERY candidate
+/// index is committed once, and the text typed next in the same context must still get its transliteration.
+fn commit_then_type(run: &Run) {
+    let punct: Vec<char> = crate::driver::typeable().into_iter().filter(|c| !c.is_ascii_alphanumeric()).collect();
+    let mut texts: Vec<String> = punct.iter().map(|c| c.to_string()).collect();
+    for a in &punct {
+        for b in &punct {
+            texts.push(format!("{a}{b}"));
+        }
+    }
+    texts.extend(crate::gen::pools().emoticons.iter().cloned());
+    texts.extend(["a", "ami", "(ami)", "smile", "sesh.", "\"k\"", "k:", "o`", "1", "a1"].iter().map(|s| s.to_string()));
+    let items: Vec<(usize, String)> = texts.into_iter().enumerate().flat_map(|(i, t)| (0..8usize).map(move |k| (i * 8 + k, t.clone()))).collect();
+    run.exhaustive(
+        "commit-every-candidate-then-type",
+        &items,
+        |_| mk_local(),
+        |(n, text), st, lo| commit_then_type_case(text, *n % 8, None, lo, st),
+    );
+    run.require_label("committed-a-non-preselected-candidate-then-typed", 1000);
+}
+
+fn commit_then_type_case(text: &str, optidx: usize, only_index: Option<usize>, lo: &mut Local, st: &mut Stats) -> Result<(), Failure> {
+    let probes = [("", "ami", ""), ("(", "kotha", ")"), (";", "", ")")];
+    let mut i = only_index.unwrap_or(0);
+    loop {
+        let case = || json!({"commit_then_type": {"text": text, "index": i, "optidx": optidx}});
+        let pf = |p: crate::driver::PanicInfo| Failure::new(panic_kind(&p), p.to_string(), case());
+        let on = &lo.on[optidx];
+        on.finish().map_err(pf)?;
+        let Some(l) = on.type_frontend(text).map_err(pf)? else { return Ok(()) };
+        if l.lonely || i >= l.cands.len() {
+            on.finish().map_err(pf)?;
+            return Ok(());
+        }
+        on.commit(i).map_err(pf)?;
+        st.evals(1);
+        if i != l.sel {
+            st.label("committed-a-non-preselected-candidate-then-typed");
+        }
+        let (pl, pw, pt) = probes[(i + text.len()) % probes.len()];
+        let probe = Case { lead: pl.to_string(), word: pw.to_string(), trail: pt.to_string(), raw: None, optidx };
+        check_opt(&probe, lo, st, false).map_err(|mut f| {
+            f.kind = format!("after-commit:{}", f.kind);
+            f.message = format!("after typing {text:?} and committing candidate {i} of {:?} ({}): {}", l.cands, lo.on[optidx].opts.letters(), f.message);
+            f.case = case();
+            f
+        })?;
+        if only_index.is_some() {
+            return Ok(());
+        }
+        i += 1;
+    }
+}
+
 pub fn run(run: &Run) {
+    commit_then_type(run);
     run.sharded("one-context-toggled-off-on", 16, run.tier.pick(600, 12000), 0, strategy, mk_toggling, |c: &Case, st, lo| toggling_case(c, lo, st));
     run.require_label("toggled-context-cases", 1000);
     // exhaustive short words
@@ -267,6 +332,10 @@ pub fn run(run: &Run) {
 
 pub fn replay(_run: &Run, case: &Value) -> Result<(), Failure> {
     let s = |k: &str| case[k].as_str().unwrap_or_default().to_string();
+    if let Some(ct) = case.get("commit_then_type") {
+        let mut lo = mk_local();
+        return commit_then_type_case(ct["text"].as_str().unwrap_or_default(), ct["optidx"].as_u64().unwrap_or(0) as usize % 8, Some(ct["index"].as_u64().unwrap_or(0) as usize), &mut lo, &mut Stats::new());
+    }
     let c = Case { lead: s("lead"), word: s("word"), trail: s("trail"), raw: case["raw"].as_str().map(|x| x.to_string()), optidx: case["optidx"].as_u64().unwrap_or(0) as usize };
     let mut lo = mk_local();
     let _ = &lo.sb;
